@@ -224,6 +224,15 @@ def guard_adts(prog):
                 if f.rec.get("impl", {}).get("self_adt") == imp["self_adt"] and f.name == "drop" and f.rec["impl"].get("trait") == "core::ops::drop::Drop":
                     if effects.destroy_sites(f):
                         out[imp["self_adt"]] = f.short
+    # ... or lets a local of such a guard type go out of scope on a normal path (the same destruction spelled as a scope guard)
+    for _ in range(3):
+        known = set(out.values())
+        for imp in prog.impls:
+            if imp.get("trait") == "core::ops::drop::Drop" and imp.get("self_adt") and imp["self_adt"] not in out:
+                for f in prog.fns.values():
+                    if f.rec.get("impl", {}).get("self_adt") == imp["self_adt"] and f.name == "drop" and f.rec["impl"].get("trait") == "core::ops::drop::Drop" and f.has_mir:
+                        if any(f.term(b)["k"] == "drop" and not f.is_cleanup(b) and any(i in known for i in f.term(b).get("drop_impls", [])) for b in f.reachable(False)):
+                            out[imp["self_adt"]] = f.short
     return out
 
 
